@@ -7,7 +7,9 @@ for d in /verif/seeded/${1:-}*/; do
   n=$(basename "$d")
   p=$(python3 -c "import json;print(json.load(open('$d/meta.json'))['breaks_property'])")
   if ! git -C /repo apply "$d/patch.diff" 2>/dev/null; then echo "$n: PATCH DOES NOT APPLY"; continue; fi
+  cp "/verif/evidence/$p.json" "/tmp/evidence-$p.json.keep" 2>/dev/null
   out=$(cd /verif && timeout 1500 ./check "$p" quick 2>&1 | grep -E "^(VIOLATION|OK)" | head -1)
+  [ -f "/tmp/evidence-$p.json.keep" ] && mv "/tmp/evidence-$p.json.keep" "/verif/evidence/$p.json"
   git -C /repo checkout -- .
   echo "$n [$p]: $out"
 done
